@@ -22,6 +22,7 @@ func init() {
 			c11R3(c, "C11.R3")
 			c11R4(c, "C11.R4")
 			c11R5(c, "C11.R5")
+			ruleFreeSetEntry(c, "C11.R6") // falling back to the older meta presents ITS state only if that state's pages were not recycled: pages freed by commit N become allocatable at the begin of writer N+1 at the earliest
 		},
 	})
 }
